@@ -222,6 +222,7 @@ KWO_NAMES = [11, 12, 13]             # k m n
 EXTRA_KW = [15, 16, 17]              # x y z
 DUNDER_EXEMPT = ['__call__', '__add__', '__getitem__', '__lt__']
 DUNDER_LISTED = ['__unicode__', '__nonzero__', '__oct__', '__hex__']      # for methods: names CPython never calls implicitly
+ONE_SIDED = ['__x', 'y__', '__apply', 'total__', '_', '__', '____', '___', '__f__', '__a_b', 'a__b']     # '__' on one side only, or degenerate
 ALL_LISTED = ['__new__', '__init__', '__str__', '__del__', '__int__', '__float__', '__complex__', '__oct__', '__hex__', '__index__',
               '__trunc__', '__repr__', '__unicode__', '__hash__', '__nonzero__', '__dir__', '__sizeof__']
 TEXTS = ['comment_star', 'string_star', 'doc_star', 'doc_static', 'comment_static', 'doc_pedantic', 'comment_rk',
@@ -274,9 +275,9 @@ def wrong(rng, a, v):
     return None
 
 
-def gen_signature(rng):
-    n_pos = rng.choice([0, 1, 1, 2, 2, 3, 4])
-    has_varpos = rng.random() < 0.18
+def gen_signature(rng, want_varpos=False):
+    n_pos = rng.choice([0, 1, 1, 2, 2, 3, 4]) if not want_varpos else rng.choice([0, 0, 0, 1, 2])
+    has_varpos = want_varpos or rng.random() < 0.18
     n_kwo = rng.choice([0, 0, 0, 1, 2]) if (has_varpos or rng.random() < 0.5) else 0
     has_varkw = rng.random() < 0.2
     params, vals = [], {}
@@ -316,8 +317,8 @@ def gen_shape(rng, forced=None):
     kind = forced or ('func' if r < 0.40 else 'class_deco' if r < 0.65 else 'method_direct' if r < 0.80 else
                       'stacked' if r < 0.88 else 'require_kwargs' if r < 0.95 else 'property')
     if kind == 'func':
-        if rng.random() < 0.12:     # module-level functions may carry any name: the whole documented list, names outside it, near-dunders
-            c['name'] = rng.choice(DUNDER_EXEMPT + ALL_LISTED + ['__x', 'y__', '_', '__', '____', '__f__'])
+        if rng.random() < 0.2:     # module-level functions may carry any name: the whole documented list, names outside it, near-dunders
+            c['name'] = rng.choice(DUNDER_EXEMPT + ALL_LISTED + ONE_SIDED * 3)
     elif kind in ('class_deco', 'method_direct'):
         c['style'] = kind
         c['mkind'] = mk = rng.choice(['instance', 'instance', 'instance', 'static', 'class'])
@@ -340,10 +341,14 @@ def gen_shape(rng, forced=None):
             c['via'] = rng.choice(['class', 'class', 'instance', 'subclass', 'sub_instance'])
     elif kind == 'stacked':
         c['decos'] = rng.choice([['pedantic', 'quiet'], ['quiet', 'pedantic']])
+        if rng.random() < 0.15:
+            c['name'] = rng.choice(DUNDER_EXEMPT + ALL_LISTED + ONE_SIDED * 3)
     elif kind == 'require_kwargs':
         c['mode'] = 'require_kwargs'
         c['decos'] = ['require_kwargs']
-        if rng.random() < 0.5:
+        if rng.random() < 0.2:
+            c['name'] = rng.choice(DUNDER_EXEMPT + ALL_LISTED + ONE_SIDED * 3)
+        elif rng.random() < 0.5:
             c['style'] = 'method_direct'
             c['mkind'] = mk = rng.choice(['instance', 'static'])
             c['name'] = 'm'
@@ -364,12 +369,16 @@ def gen_shape(rng, forced=None):
     return c, kind
 
 
-def gen_case(rng, stream, forced=None):
-    """one case of the given stream: 'valid' | 'near' | 'malformed'"""
+from p_common_msgs import EXC_MSGS
+
+
+def gen_case(rng, stream, forced=None, focus=None):
+    """one case of the given stream: 'valid' | 'near' | 'malformed'; focus='varargs': a function with *args called positionally"""
     c, kind = gen_shape(rng, forced)
     c['ctx'] = GC.CTX
     c['stream'] = stream
-    params, vals = gen_signature(rng)
+    c['exc_msg'] = rng.randrange(len(EXC_MSGS)) if rng.random() < 0.5 else 0
+    params, vals = gen_signature(rng, want_varpos=(focus == 'varargs' and kind != 'property'))
     if kind == 'property':
         a, v = gen_ann_val(rng)
         params, vals = [{'name': 18, 'kind': 'pos', 'ann': a, 'default': None}], {18: v}
@@ -395,13 +404,13 @@ def gen_case(rng, stream, forced=None):
                 kwargs.append([name, v])
     vp = [p for p in params if p['kind'] == 'varpos']
     positional_style = False
-    if vp and rng.random() < 0.6:
+    if vp and (rng.random() < 0.6 or focus == 'varargs'):
         # positional call of a *args function: named positional parameters first, then the star elements
         positional_style = True
         lead = [p for p in params if p['kind'] in ('pos', 'posonly')]
         args = [vals[p['name']] for p in lead]
         kwargs = [kv for kv in kwargs if kv[0] not in [p['name'] for p in lead]]
-        for _ in range(rng.choice([0, 1, 2, 3])):
+        for _ in range(rng.choice([0, 1, 2, 3]) if focus != 'varargs' else rng.choice([1, 1, 2, 3])):
             v = conf(rng, vp[0]['ann'])
             if v is not None:
                 args.append(v)
@@ -410,8 +419,20 @@ def gen_case(rng, stream, forced=None):
     rng.shuffle(kwargs)
     c['args'], c['kwargs'] = args, kwargs
     c['mut'] = 'none'
+    # a second function of the same name defined (and called) earlier in the same module: nothing may leak from it
+    if kind in ('func', 'require_kwargs') and c['style'] == 'func' and rng.random() < 0.08:
+        c['shadow'] = {'star': rng.random() < 0.7, 'args': [['int', 1]] * rng.choice([1, 2])}
     if stream == 'near':
-        mutate_near(rng, c, kind, positional_style)
+        if focus == 'varargs' and vp and rng.random() < 0.6:
+            n_lead = len([p for p in params if p['kind'] in ('pos', 'posonly')])
+            if len(c['args']) > n_lead:      # corrupt a star element, preferably the first one
+                i = n_lead if rng.random() < 0.6 else rng.randrange(n_lead, len(c['args']))
+                w = wrong(rng, vp[0]['ann'], c['args'][i])
+                if w is not None:
+                    c['args'][i] = w
+                    c['mut'] = 'star'
+        if c['mut'] == 'none':
+            mutate_near(rng, c, kind, positional_style)
     elif stream == 'malformed':
         mutate_malformed(rng, c, kind)
     return c
@@ -534,7 +555,13 @@ def gen_cases(rng, tier, scale=1):
     for i in range(n):
         r = rng.random()
         stream = 'valid' if r < 0.45 else 'near' if r < 0.90 else 'malformed'
-        cases.append(gen_gen_case(rng, stream) if rng.random() < 0.18 else gen_case(rng, stream))
+        r2 = rng.random()
+        if r2 < 0.18:
+            cases.append(gen_gen_case(rng, stream))
+        elif r2 < 0.30:
+            cases.append(gen_case(rng, stream, forced=rng.choice(['func', 'stacked', 'stacked', 'class_deco', 'method_direct']), focus='varargs'))
+        else:
+            cases.append(gen_case(rng, stream))
     return cases
 
 
@@ -787,6 +814,12 @@ def reductions(c):
             d = copy.deepcopy(base); d['args'].pop(i); out.append(d)
     if base['text'] != 'none':
         d = copy.deepcopy(base); d['text'] = 'none'; out.append(d)
+    if base.get('shadow'):
+        d = copy.deepcopy(base); d.pop('shadow'); out.append(d)
+    if base.get('drive') == 'yield_from':
+        d = copy.deepcopy(base); d['drive'] = 'direct'; out.append(d)
+    if base.get('exc_msg'):
+        d = copy.deepcopy(base); d['exc_msg'] = 0; out.append(d)
     if not base['gen'] and base['ret'] != ['cls', 'int'] and base['style'] != 'property':
         d = copy.deepcopy(base); d['ret'] = ['cls', 'int']; d['body'] = ['ret', ['int', 1]]; out.append(d)
     if base['gen']:
@@ -967,6 +1000,7 @@ def gen_gen_case(rng, stream):
         else:
             ops.append(['close'])
     c['script'], c['ops'] = script, ops
+    c['drive'] = 'yield_from' if rng.random() < 0.4 else 'direct'      # the wrapper driven directly, or through `yield from`
     r = rng.random()
     c['on_throw'] = 'propagate' if r < 0.5 else ['yield', conf(rng, Y) or yv] if r < 0.8 else ['ret', conf(rng, R) or rv]
     if stream == 'near':
@@ -1024,8 +1058,18 @@ def canon_ident(case, k):
     return k
 
 
+def cut_ops(case, ops):
+    """driven through `yield from`, the delegating generator ends with the first StopIteration / exception / close:
+    only the operations up to there say anything about the wrapper"""
+    if case.get('drive') == 'yield_from':
+        for k, o in enumerate(ops):
+            if o[0] != 0:
+                return ops[:k + 1]
+    return ops
+
+
 def canon_ops(case, ops):
-    return [[o[0], o[1], canon_ident(case, o[2]) if o[0] in (0, 1) else o[2]] for o in ops]
+    return cut_ops(case, [[o[0], o[1], canon_ident(case, o[2]) if o[0] in (0, 1) else o[2]] for o in ops])
 
 
 def initialized_before(case, idx):
@@ -1059,7 +1103,7 @@ def gen_judge_c03(case, i, m):
             return f'a supplied value does not conform in a positional call: a PedanticException expected, got {i["out"]} ({i.get("exc")})'
     if i['out'] != 0:
         return None
-    for idx, (kind, code, ident) in enumerate(i.get('ops') or []):
+    for idx, (kind, code, ident) in enumerate(cut_ops(case, i.get('ops') or [])):
         op = case['ops'][idx] if idx < len(case['ops']) else ['?']
         if kind == 0 and ((0 <= ident < 1000 and flag(m['bad_yield'], ident)) or (ident == 1000 and flag(m['bad_throw'], 0))):
             return f'operation {idx} ({op[0]}): a yielded value that does not conform to the yield type was handed to the caller'
